@@ -515,6 +515,8 @@ class Prov:
             return self.project_field(base[2], adt, name, d)
         if tag == 'list':
             return join([self.project_field(b, adt, name, d) for b in base[1]]) if base[1] else ('absent',)
+        if tag == 'ctor' and name.isdigit() and int(name) < len(base[2]) and base[1].split('::')[-1] == adt.split('::')[-1]:
+            return base[2][int(name)]       # `.0` of a tuple struct built right here
         if (adt, name) in self.origin_fields or self.is_origin_adt(adt):
             return ('field', base, adt, name)
         if tag == 'agg':
@@ -655,7 +657,12 @@ class Prov:
 
     def ev_try(self, fn, e, env, d):
         # `x?`: the Err alternatives of x leave the function; what continues is the Ok payload (Ok(v) is v here)
-        return strip_err(self.eval(fn, e['e'], env, d))
+        t = self.eval(fn, e['e'], env, d)
+        ty = (e['e'].get('ty') or '').replace(' ', '')
+        if ty.startswith(('std::option::Option<', 'core::option::Option<', 'Option<')):
+            # on an Option, `?` returns None from the function for the None alternatives
+            return strip_err(t, none_too=True)
+        return strip_err(t)
 
     def ev_unary(self, fn, e, env, d):
         v = self.eval(fn, e['e'], env, d)
@@ -694,7 +701,14 @@ class Prov:
             if a.get('guard') is not None:
                 ps = ('guarded', ps, self.eval(fn, a['guard'], env, d))
             arms.append((ps, self.eval(fn, a['body'], env, d)))
-        return ('match', s, tuple(arms))
+        arms = tuple(arms)
+        # case-of-case: a match on a value that is itself chosen by conditions among known constructors (a private enum
+        # made from flags, then matched on) is the inner choice with each constructor replaced by its arm
+        if s[0] in ('if', 'match') and _ctor_leaves(s):
+            r = _case_of_case(s, arms)
+            if r is not None:
+                return r
+        return ('match', s, arms)
 
     def ev_closure(self, fn, e, env, d):
         return ('closure', fn.key, e['id'], self.envid(env))
@@ -1290,20 +1304,79 @@ def leaves(t, conds=()):
         yield conds, t
 
 
-def strip_err(t, depth=0):
+def _ctor_name(t):
+    if t[0] in ('ctor', 'global') and '::' in t[1] and t[1].split('::')[-1][:1].isupper():
+        return t[1].split('::')[-1]
+    return None
+
+
+def _ctor_leaves(t, depth=0):
+    """is t a small if/match tree whose alternatives are all enum constructors (or diverge)?"""
+    if depth > 4:
+        return False
     tag = t[0]
-    if tag == 'err':
+    if tag == 'if':
+        return _ctor_leaves(t[2], depth + 1) and _ctor_leaves(t[3], depth + 1)
+    if tag == 'match':
+        return all(_ctor_leaves(a, depth + 1) for _, a in t[2])
+    if tag in ('diverge', 'early'):
+        return True
+    return _ctor_name(t) is not None
+
+
+def _definitely(pat, leaf):
+    k = pat[0]
+    if k in ('wild', 'bind'):
+        return True
+    if k == 'ctor':
+        n = _ctor_name(leaf)
+        if n is None or pat[1].split('::')[-1] != n:
+            return False
+        return all(sp[0] in ('wild', 'bind') for sp in pat[2] if isinstance(sp, tuple) and sp and isinstance(sp[0], str) and sp[0] in ('wild', 'bind', 'ctor', 'lit', 'tuple', 'or'))
+    if k == 'or':
+        return any(_definitely(p, leaf) for p in pat[1])
+    return False
+
+
+def _case_of_case(t, arms):
+    tag = t[0]
+    if tag == 'if':
+        a, b = _case_of_case(t[2], arms), _case_of_case(t[3], arms)
+        return None if a is None or b is None else ('if', t[1], a, b)
+    if tag == 'match':
+        out = []
+        for p, a in t[2]:
+            r = _case_of_case(a, arms)
+            if r is None:
+                return None
+            out.append((p, r))
+        return ('match', t[1], tuple(out))
+    if tag in ('diverge', 'early'):
+        return t
+    for ps, body in arms:
+        if ps[0] == 'guarded':
+            return None
+        if _definitely(ps, t):
+            return body
+        if pat_may_match(ps, t):
+            return None
+    return ('absent',)
+
+
+def strip_err(t, depth=0, none_too=False):
+    tag = t[0]
+    if tag == 'err' or (none_too and tag == 'none'):
         return ('diverge', 'ret')
     if depth > 6:
         return t
     if tag == 'join':
-        return join([strip_err(m, depth + 1) for m in t[1]])
+        return join([strip_err(m, depth + 1, none_too) for m in t[1]])
     if tag == 'if':
-        return ('if', t[1], strip_err(t[2], depth + 1), strip_err(t[3], depth + 1))
+        return ('if', t[1], strip_err(t[2], depth + 1, none_too), strip_err(t[3], depth + 1, none_too))
     if tag == 'match':
-        return ('match', t[1], tuple((p, strip_err(a, depth + 1)) for p, a in t[2]))
+        return ('match', t[1], tuple((p, strip_err(a, depth + 1, none_too)) for p, a in t[2]))
     if tag == 'orelse':
-        return ('orelse', strip_err(t[1], depth + 1), strip_err(t[2], depth + 1))
+        return ('orelse', strip_err(t[1], depth + 1, none_too), strip_err(t[2], depth + 1, none_too))
     if tag == 'early':
         return t
     return t
